@@ -3,6 +3,7 @@
 """This module provide helper functions to read gsd files"""
 
 import os
+from dataclasses import replace
 from typing import Any
 
 import numpy as np
@@ -171,7 +172,6 @@ def read_gsd_dcd(f_gsd: Any, f_dcd: Any, ndim: int) -> Snapshots:
         logger.error("---*Warning*: Inconsistent particle number in gsd and dcd files---")
         return None
 
-    for i in range(positions.shape[0]):
-        snapshots[i].positions = positions[i][:, :ndim]
+    snapshots = [replace(snapshot, positions=positions[i][:, :ndim]) for i, snapshot in enumerate(snapshots)]
 
     return Snapshots(nsnapshots=len(f_gsd), snapshots=snapshots)
